@@ -125,7 +125,11 @@ class C04(Check):
                 ops.append("refine:-1,%d" % rng.randrange(3))
             ops.append("mergemesh:-1")
             ops.append("mergemesh:%d" % rng.randrange(1000))
-            thr, lazy, nsched = rng.choice([64, 64, 16]), 0, 4
+            ops.append("soup:%d,%d,%d" % (rng.randrange(1000), rng.randrange(1000), rng.randrange(3)))
+            # a soup of >= 512 vertices crosses the shipped sequential threshold of Merge(): half of the cases run there
+            ops.append("sphere:%d,%d" % (rng.randrange(1000), rng.randint(5, 24)))
+            ops.append("soup:-1,%d,%d" % (rng.randrange(1000), rng.randrange(3)))
+            thr, lazy, nsched = rng.choice([64, 16, 1, 1]), 0, 4
         elif arm == "2d":
             ops = gen.gen_program(rng, gen.MIX_2D, rng.randint(8, 20), rng.choice(["small", "big"]))
             thr, lazy, nsched = rng.choice([1, 64]), 0, 2
